@@ -81,6 +81,7 @@ func runC08(c *core.Ctx) {
 	c.Rule("R3", "registration time: fresh time.Now() only when the own entry is missing, otherwise the recorded value", 4)
 	c.Rule("R4", "tokens are generated against the ring read in the same CAS attempt", 4)
 	c.Rule("R5", "readiness latch", 3)
+	c.Rule("R6", "single actor: exported lifecycler methods reach a KV CAS only through the actor loop", 20)
 	c.Rule("R7", "published token lists are sorted", 8)
 	c.Rule("R8", "tokens inherited from the ring are kept: a heartbeat re-publishes the ring entry's tokens when the entry exists, the remembered ones only when it is missing", 4)
 	pkg := c.Prog.Pkg("ring")
@@ -102,6 +103,7 @@ func runC08(c *core.Ctx) {
 	c08Ready(c, pkg)
 	c08Sorted(c, pkg, fns)
 	c09HeartbeatAs(c, "R8")
+	c08SingleActor(c, pkg, fns)
 }
 
 func isDescIngesters(fn *an.Fn, e ast.Expr) bool {
@@ -698,5 +700,87 @@ func c08Sorted(c *core.Ctx, pkg *packages.Package, fns []*an.Fn) {
 				return true
 			})
 		}
+	}
+}
+
+// c08SingleActor (R6): exported methods of the lifecyclers never reach a KV CAS synchronously; ring writes issued on behalf
+// of other goroutines travel through the actor channel (closures handed to sendToLifecyclerLoop / run).
+func c08SingleActor(c *core.Ctx, pkg *packages.Package, fns []*an.Fn) {
+	actorEntry := map[string]bool{"(*Lifecycler).sendToLifecyclerLoop": true, "(*BasicLifecycler).run": true}
+	hasCAS := func(f *an.Fn) bool {
+		for _, call := range f.Calls(false) {
+			if cf := call.Func(); cf != nil && cf.Name() == "CAS" {
+				return true
+			}
+		}
+		return false
+	}
+	// literals handed to the actor loop (directly, or through a local variable that is passed to it)
+	actorLits := func(f *an.Fn) map[*ast.FuncLit]bool {
+		out := map[*ast.FuncLit]bool{}
+		for _, call := range f.Calls(true) {
+			cf := call.Func()
+			if cf == nil || !actorEntry[an.FuncDisplay(cf)] {
+				continue
+			}
+			for _, a := range call.Expr.Args {
+				if l, ok := an.Unparen(a).(*ast.FuncLit); ok {
+					out[l] = true
+				} else if obj := call.In.ObjOf(a); obj != nil {
+					if d, ok := call.In.SingleDefExpr(obj); ok {
+						if l, ok := an.Unparen(d).(*ast.FuncLit); ok {
+							out[l] = true
+						}
+					}
+				}
+			}
+		}
+		return out
+	}
+	var reach func(f *an.Fn, skip map[*ast.FuncLit]bool, seen map[string]bool) []string
+	reach = func(f *an.Fn, skip map[*ast.FuncLit]bool, seen map[string]bool) []string {
+		if f == nil || seen[f.Name] {
+			return nil
+		}
+		seen[f.Name] = true
+		var out []string
+		if hasCAS(f) {
+			out = append(out, f.Name)
+		}
+		for _, l := range f.Lits() {
+			if skip[l.Lit] {
+				continue
+			}
+			// a literal started with `go` or deferred runs in/after this call: still the caller's goroutine for defer, a new one for go;
+			// either way it is not the actor loop, so it counts
+			out = append(out, reach(l, skip, seen)...)
+		}
+		for _, call := range f.Calls(false) {
+			if cf := call.Func(); cf != nil && cf.Pkg() == pkg.Types && !actorEntry[an.FuncDisplay(cf)] {
+				out = append(out, reach(an.FnOf(c.Prog.ByPath, cf), skip, seen)...)
+			}
+		}
+		return out
+	}
+	// service functions run on the lifecycler's own goroutine: allowed
+	serviceFns := map[string]bool{"starting": true, "running": true, "stopping": true, "loop": true}
+	n := 0
+	for _, fn := range fns {
+		if fn.Decl == nil || !ast.IsExported(fn.Decl.Name.Name) || serviceFns[fn.Decl.Name.Name] {
+			continue
+		}
+		if !strings.HasPrefix(fn.Name, "(*Lifecycler).") && !strings.HasPrefix(fn.Name, "(*BasicLifecycler).") {
+			continue
+		}
+		n++
+		writers := reach(fn, actorLits(fn), map[string]bool{})
+		if fn.Decl.Name.Name == "ServeHTTP" {
+			c.HoldTrivial("R6", "exported="+fn.Name, fn.Pos(), "operator page (forget button): outside the lifecycler-initiated writes of the property")
+			continue
+		}
+		c.Check(len(writers) == 0, "R6", "exported="+fn.Name, fn.Pos(), fmt.Sprintf("no KV CAS is reachable synchronously from this exported method (writers reached outside the actor loop: %v)", writers), 1)
+	}
+	if n < 20 {
+		c.Undec("R6", "exported", pkg.Syntax[0].Pos(), fmt.Sprintf("only %d exported lifecycler methods found", n))
 	}
 }
